@@ -1154,9 +1154,9 @@ Section StepProofs.
         assert (Lt : (i_id X < nid (bump s1))%N) by (simpl; lia).
         assert (TT : (match i_ty X with Some (TyPrim _) => negb (i_enum X) | _ => false end
                       && negb (match alookup n S with Some _ => true | None => false end)) = false) by reflexivity.
-        destruct (finish_named n (Obj ps req) X (bump s1) r s' Hl Hcls Hne TT H He (Inv_bump _ I1) eq_refl Cl Mem eq_refl Lt) as (A & -> & C).
+        destruct (finish_named n (Obj ps req) X (bump s1) r s' Hl Hcls Hne TT H He (Inv_bump _ I1) eq_refl Cl Mem (conj eq_refl (conj eq_refl (conj eq_refl eq_refl))) Lt) as (A & -> & C).
         split; [exact A|]. split; [|exact C]. exists (Obj ps req). split; [exact Hl|]. split; [reflexivity|].
-        split; [exact Cl|]. split; [exact Mem | reflexivity]. }
+        split; [exact Cl|]. split; [exact Mem | repeat split; reflexivity]. }
       destruct (spec_facts S HS _ _ HlS) as (Hc & Hcls & Hne & Hk0 & Hrf).
       assert (Hk : forall k, In k (prop_keys nd) -> ~ In k (map fst (nt S)))
         by (intros k Hin0; apply Hk0; unfold deep_keys; apply in_or_app; left; exact Hin0).
@@ -1179,7 +1179,7 @@ Section StepProofs.
         { intros key pn Hi Hob. exists n. split; [simpl; rewrite Hne; reflexivity|].
           eapply (nt_inline S HS); eauto. }
         destruct (props_ok_inl S rec Hrec Hm _ _ _ _ _ _ Hc Hinl Hk E (L1 He) (L2 Ho) HI) as (I1 & F).
-        eapply G; [exact H | exact He | apply Inv_bump, I1 | reflexivity | apply clean_mk; discriminate | | reflexivity | simpl; lia].
+        eapply G; [exact H | exact He | apply Inv_bump, I1 | reflexivity | apply clean_mk; discriminate | | repeat split; reflexivity | simpl; lia].
         exists 1%nat, (merge_into [] (map (fun kv => (fst kv, ty_of_prop (Some n) (fst kv) (snd kv))) ps), req).
         simpl. auto.
       - (* Arr *)
@@ -1227,7 +1227,7 @@ Section StepProofs.
           induction l as [|y l IH]; [contradiction|]. apply in_or_app.
           destruct Hx as [->|Hx]; [left; exact Hkx | right; apply IH, Hx]. }
         destruct (list_ok S HS rec Hrec Hm _ _ _ _ Hc Hk' (fun m Hm0 => Hrf m (refs_members l m Hm0)) E (L1 He) (L2 Ho) HI) as (I1 & F).
-        eapply G; [exact H | exact He | apply Inv_bump, I1 | reflexivity | apply clean_mk; discriminate | | reflexivity | simpl; lia].
+        eapply G; [exact H | exact He | apply Inv_bump, I1 | reflexivity | apply clean_mk; discriminate | | repeat split; reflexivity | simpl; lia].
         eapply allof_member_ok; [exact F | reflexivity | reflexivity].
       - (* Prim *)
         eapply G; [exact H | exact He | apply Inv_bump, HI | reflexivity | apply clean_mk; discriminate | | | simpl; lia].
